@@ -222,6 +222,12 @@ func (f *Frame) evalId(name string, env *Env) *Val {
 		return &Val{K: VScalar, T: types.Typ[types.UntypedNil], X: IntLit(0)}
 	case "result":
 		if env.Result == nil {
+			// a local variable named result (address-taken) inside a loop invariant
+			if env.Callee == nil {
+				if v := f.localByName(name, env.State); v != nil {
+					return v
+				}
+			}
 			f.E.fail("'result' used where no result is in scope")
 		}
 		return env.Result
@@ -325,6 +331,16 @@ func (f *Frame) localByName(name string, st *State) *Val {
 				return nil // ambiguous
 			}
 			found = f.load(val.Addr, st)
+		} else if ok && a.Comment == name && isStructType(a.Type().Underlying().(*types.Pointer).Elem()) && (val.K == VScalar || val.K == VAddr && val.Addr.Kind == AObj && val.Addr.Path == "") {
+			// a struct variable that lives on the heap (its address escapes): the name denotes the object
+			if found != nil {
+				return nil
+			}
+			if val.K == VScalar {
+				found = val
+			} else {
+				found = &Val{K: VScalar, T: a.Type(), X: val.Addr.Obj}
+			}
 		}
 	}
 	return found
